@@ -344,7 +344,15 @@ def run(a):
         sts = set(a.recheck.split(','))
         prev = json.load(open(a.out or os.path.join(ROOT, 'mutation', 'results.json')))['mutants']
         only = {(r['file'], r['function'], r['site']) for r in prev if r['status'] in sts}
+    have = set()
+    if getattr(a, 'new_only', False):
+        # only functions that have no recorded mutant yet (functions brought under contract since the last full run)
+        prevp = a.out or os.path.join(ROOT, 'mutation', 'results.json')
+        if os.path.exists(prevp):
+            have = {(r['file'], r['function']) for r in json.load(open(prevp))['mutants']}
     for file, qual, hs in plan(idx, a.files, a.funcs, a.max_harnesses):
+        if (file, qual) in have:
+            continue
         src = open(os.path.join(REPO, file)).read()
         fn = function_nodes(ast.parse(src)).get(qual)
         if fn is None:
@@ -438,6 +446,7 @@ def main(argv=None):
     ap.add_argument('--out')
     ap.add_argument('--merge', action='store_true')
     ap.add_argument('--recheck', help='comma list of statuses in the results file to re-evaluate')
+    ap.add_argument('--new-only', action='store_true', dest='new_only')
     ap.add_argument('--props')
     ap.add_argument('--n', type=int, default=24)
     a = ap.parse_args(argv)
